@@ -213,7 +213,10 @@ def run(tier="quick", seed=0):
         img = image_file(6144)
         for exc_name, exc in (("ConnectionRefusedError", ConnectionRefusedError(errno.ECONNREFUSED, "Connection refused")),
                               ("OSError(EHOSTUNREACH)", OSError(errno.EHOSTUNREACH, "No route to host")),
-                              ("OSError(ENETUNREACH)", OSError(errno.ENETUNREACH, "Network is unreachable"))):
+                              ("OSError(ENETUNREACH)", OSError(errno.ENETUNREACH, "Network is unreachable")),
+                              ("OSError(ENOBUFS)", OSError(errno.ENOBUFS, "No buffer space available")),
+                              ("BlockingIOError(EAGAIN)", BlockingIOError(errno.EAGAIN, "Resource temporarily unavailable")),
+                              ("InterruptedError(EINTR)", InterruptedError(errno.EINTR, "Interrupted system call"))):
             for k in range(0, 8):
                 ev += 1
                 del sent[:]
@@ -232,9 +235,16 @@ def run(tier="quick", seed=0):
                 dgs_ = [d[1] for d in sent if d[0] == "send"]
                 n_dg = len(dgs_)
                 cmds = [struct.unpack("!H4I", d[:18])[1:3] for d in dgs_]
-                complete = cmds == [(1, 0)] + [(3, (255 << 8) | j) for j in range(6)] + [(5, 1)]
+                valid = [(1, 0)] + [(3, (255 << 8) | j) for j in range(6)] + [(5, 1)]
+                complete = cmds == valid and all(len(d) == 18 + 1024 for d in dgs_[1:7])        # (every block with its whole kilobyte)
                 if returned is True and complete:
                     continue            # (an implementation that sends the refused datagram again and completes is fine)
+                if returned is False and cmds != valid[:len(cmds)] and len(viol) < 6:
+                    # boot() gave up: what the board has seen must be a beginning of the boot - never, say, an END after missing blocks
+                    viol.append({"id": "refused_%d" % ev, "clause": "single_boot",
+                                 "why": "send() number %d raised %s and boot() raised; the datagrams that did leave are %r - not a beginning of start, blocks 0..5, end" % (k, exc_name, cmds),
+                                 "inputs": {"image_len": 6144, "failing_send": k, "exception": exc_name}})
+                    continue
                 if returned is not False and len(viol) < 6:
                     viol.append({"id": "refused_%d" % ev, "clause": "single_boot",
                                  "why": "send() number %d raised %s (that datagram never left); boot() %s with %d of the 8 datagrams sent" % (
@@ -246,6 +256,6 @@ def run(tier="quick", seed=0):
             os.unlink(os.path.join(tmpdir, f))
         os.rmdir(tmpdir)
     return {"name": "c20_boot", "evaluations": ev, "distinct_nontrivial": len(distinct),
-            "rule": "real boot() over a recording socket and frozen clock: image lengths %s (None = the bundled scamp.boot) x 4 option sets x options passed as keywords / as sv_overrides / half and half in one call / as keywords of MachineController.boot (three image lengths); every decodable system variable of the configuration area on its own (default + 1) in the sv_overrides dictionary of boot() and of MachineController.boot(); two-boot histories (3 first option sets x 2 second x 4 ways of passing); the image file replaced under the same path between two boots (4 length pairs x boot() / MachineController.boot()); a send() that raises (connection refused / host / network unreachable) at each of the 8 datagrams of a 6 KiB boot: boot() must not return normally; checks connect, start(n-1), blocks 0..n-1 with a1=(255<<8)|k and <= 1 KiB, end(1), un-swapped concatenation == image outside bytes 384..511, every decodable system variable in the configuration area == this call's option else the struct file's default, returned structs pack to the area sent" % (sizes,),
+            "rule": "real boot() over a recording socket and frozen clock: image lengths %s (None = the bundled scamp.boot) x 4 option sets x options passed as keywords / as sv_overrides / half and half in one call / as keywords of MachineController.boot (three image lengths); every decodable system variable of the configuration area on its own (default + 1) in the sv_overrides dictionary of boot() and of MachineController.boot(); two-boot histories (3 first option sets x 2 second x 4 ways of passing); the image file replaced under the same path between two boots (4 length pairs x boot() / MachineController.boot()); a send() that raises (connection refused / host / network unreachable / no buffer space / would block / interrupted) at each of the 8 datagrams of a 6 KiB boot: boot() must not return normally unless the whole stream - every block with its whole kilobyte - was sent after all, and when it raises the datagrams that left must be a beginning of the valid stream (no END after missing blocks); checks connect, start(n-1), blocks 0..n-1 with a1=(255<<8)|k and <= 1 KiB, end(1), un-swapped concatenation == image outside bytes 384..511, every decodable system variable in the configuration area == this call's option else the struct file's default, returned structs pack to the area sent" % (sizes,),
             "bound": "listed sizes, option sets and two-boot histories", "exhaustive": False, "label": "bounded",
             "samples": samples, "violations": viol, "seconds": round(_time.time() - t0, 2)}
